@@ -134,6 +134,12 @@ SeekHyps(m, t) ==
   {MkSeekHyp(m, x[1], AdvM(m, x[2], x[3])) :
      x \in {y \in (0..4) \X Near(m, t) \X (0..4) : y[3] <= y[1]}}
 
+\* a seek to a time in front of the loop region (in the direction of play) may land on that time: the play head then runs into
+\* the loop like a sound started there
+ExactHyps(m, t) ==
+  {MkSeekHyp(m, x[1], AdvM(m, x[2], x[3])) :
+     x \in {y \in (0..4) \X {q \in {t - 1, t, t + 1} \cap (0..(m.n - 1)) : InDom(m.back, m.lp, q)} \X (0..4) : y[3] <= y[1]}}
+
 \* a loop-region change (already stored in mn.lp) that takes effect after the
 \* d-th frame of the window
 Reloop(mn, h, d) ==
@@ -251,10 +257,12 @@ ApplyCmd(m0) ==
     [] e.a = "seek_to" ->
          IF m.stopped THEN m
          ELSE IF ~Audible(m) THEN [m EXCEPT !.open = TRUE]
-         \* a target outside the loop region (but inside the audio): where in the region the seek lands is left to the
-         \* implementation, but it lands inside it - a looping sound never plays a frame outside its loop after a seek
+         \* a target outside the loop region (but inside the audio): the seek lands on the requested time if that lies in front
+         \* of the loop (the sound then runs into its loop), or somewhere inside the region - where is left to the implementation;
+         \* it never lands behind the loop
          ELSE IF e.t \notin Region(m) /\ m.lp # NoLoop /\ e.t >= 0 /\ e.t < m.n
-              THEN [m EXCEPT !.hyps = UNION {SeekHyps(m, q) : q \in Region(m)}, !.cmd = "seek", !.age = 0, !.dr = 0, !.sat = FALSE,
+              THEN [m EXCEPT !.hyps = UNION {SeekHyps(m, q) : q \in Region(m)} \cup ExactHyps(m, e.t),
+                             !.cmd = "seek", !.age = 0, !.dr = 0, !.sat = FALSE,
                              !.nearEnd = FALSE]
          ELSE IF e.t \notin Region(m) THEN [m EXCEPT !.open = TRUE]
          ELSE [m EXCEPT !.hyps = SeekHyps(m, e.t), !.cmd = "seek", !.age = 0, !.dr = 0, !.sat = FALSE,
